@@ -914,7 +914,7 @@ def concatenate_ds(datasets, axis=0, align=False, **kwargs):
     -------
     joint Dataset along axis
 
-    NOTE: will raise an error if variables are there which do not contain the required dimension
+    NOTE: variables which do not contain the required dimension are left unchanged (they must be the same in all datasets)
 
     See Also
     --------
@@ -952,11 +952,21 @@ def concatenate_ds(datasets, axis=0, align=False, **kwargs):
         for d in aligned_dims:
             datasets = da.align(datasets, axis=d, strict=True, **kwargs)
 
+    # the axis is a dimension of the datasets: a position counts in their dimensions, not in each variable's
+    axis_nm = datasets[0].axes[axis].name
+
     # Compute concatenated dataset
     dataset = Dataset()
     for v in variables:
         arrays = [ds[v] for ds in datasets]
-        array = concatenate(arrays, axis=axis, align=False, _no_check=align)
+        if axis_nm not in arrays[0].dims:
+            # a variable without that dimension is left unchanged (it has to be the same in all datasets)
+            for a in arrays[1:]:
+                if a.dims != arrays[0].dims or not np.all((a.values == arrays[0].values) | ((a.values != a.values) & (arrays[0].values != arrays[0].values))):
+                    raise ValueError("concatenate_ds: variable {} has no dimension {} and differs across datasets".format(v, axis_nm))
+            dataset[v] = arrays[0]
+            continue
+        array = concatenate(arrays, axis=axis_nm, align=False, _no_check=align)
         dataset[v] = array
 
     return dataset
